@@ -76,7 +76,8 @@ def records_for(prop, modname='props.cxx'):
 
 
 HELPER_FUNCTIONS = {
-    'C01': ['depccg/parsing.h::utils::argmax<float>', 'depccg/parsing.h::parsing::matrix::operator()', 'depccg/parsing.h::parsing::matrix::argmax',
+    'C01': ['depccg/parsing.h::parse_sentence (completeness of a search iteration: goal/chart-complete, expand-root/sites/once; failure status after the loop)',
+            'depccg/parsing.h::utils::argmax<float>', 'depccg/parsing.h::parsing::matrix::operator()', 'depccg/parsing.h::parsing::matrix::argmax',
             'depccg/parsing.h::parsing::compute_outside_probabilities (3 loops, ghost prefix/suffix sums)', 'depccg/parsing.h::parse_sentence (score setup region: 2 loops)'],
     'C09': ['depccg/parsing.h::utils::argmax<float>', 'depccg/parsing.h::parsing::matrix::operator()', 'depccg/parsing.h::parsing::matrix::argmax',
             'depccg/parsing.h::parse_sentence (score setup region: 2 loops)'],
@@ -84,7 +85,9 @@ HELPER_FUNCTIONS = {
     'C02': ['depccg/parsing.h::parsing::chart::cell::contains', 'depccg/parsing.h::parsing::chart::cell::emplace', 'depccg/parsing.h::parsing::chart::operator()',
             'depccg/parsing.h::parsing::chart::update'],
     'C10': ['depccg/parsing.h::parsing::chart::cell::contains', 'depccg/parsing.h::parsing::chart::cell::emplace', 'depccg/parsing.h::parsing::chart::cell::size',
-            'depccg/parsing.h::parsing::chart::operator()', 'depccg/parsing.h::parsing::chart::update', 'depccg/parsing.h::parsing::chart::size'],
+            'depccg/parsing.h::parsing::chart::cell::sort (comparator: higher score first)',
+            'depccg/parsing.h::parsing::chart::operator()', 'depccg/parsing.h::parsing::chart::update', 'depccg/parsing.h::parsing::chart::size',
+            'depccg/parsing.h::parse_sentence (completeness of a search iteration; region after the search loop: failure status, sort, delivery)'],
 }
 
 CXX_ASSUMPTIONS = [
